@@ -190,18 +190,19 @@ pub fn builtin_set(arr: ArrValue, #[default] keyF: KeyF) -> Result<ArrValue> {
 }
 
 fn array_top1(arr: ArrValue, keyf: KeyF, ordering: Ordering) -> Result<Val> {
-	let mut iter = arr.iter();
-	let mut min = iter.next().expect("not empty")?;
-	let mut min_key = keyf.eval(Thunk::evaluated(min.clone()))?;
-	for item in iter {
-		let cur = item?;
-		let cur_key = keyf.eval(Thunk::evaluated(cur.clone()))?;
+	// `foldl(function(a, b) if __compare(keyF(a), keyF(b)) > 0 then b else a, arr, arr[0])`:
+	// only the key function looks at an element that does not become the result.
+	let mut iter = arr.iter_lazy();
+	let mut min = iter.next().expect("not empty");
+	let mut min_key = keyf.eval(min.clone())?;
+	for cur in iter {
+		let cur_key = keyf.eval(cur.clone())?;
 		if evaluate_compare_op(&cur_key, &min_key, BinaryOpType::Lt)? == ordering {
 			min = cur;
 			min_key = cur_key;
 		}
 	}
-	Ok(min)
+	min.evaluate()
 }
 
 #[builtin]
